@@ -636,6 +636,7 @@ func (e *Exec) execBlock(b *ssa.BasicBlock, in *State) {
 		if st.pc.IsFalse() {
 			break
 		}
+		e.atSite(ins, st)
 		switch x := ins.(type) {
 		case *ssa.Phi:
 			// done at merge
@@ -1083,5 +1084,53 @@ func (e *Exec) invObligations(env *Env, cl *Clause, k int, li *loopInfo, phase s
 			text = pt.x.String() + "   [part of: " + cl.Text + "]"
 		}
 		e.addObl("inv", label, text, e.fc.clauseProps(cl), st, g, pos)
+	}
+}
+
+// atSite: "assert at <source text>" clauses fire at the first statement-level instruction
+// (branch, store, call, return) whose source line contains the text.
+func (e *Exec) atSite(ins ssa.Instruction, st *State) {
+	if e.parent != nil || e.fc == nil || e.specMode {
+		return
+	}
+	has := false
+	for _, sa := range e.fc.Asserts {
+		if sa.When == "at" {
+			has = true
+		}
+	}
+	if !has {
+		return
+	}
+	switch ins.(type) {
+	case *ssa.If, *ssa.Store, *ssa.Call, *ssa.Return:
+	default:
+		return
+	}
+	pos := ins.Pos()
+	if iff, ok := ins.(*ssa.If); ok {
+		pos = iff.Cond.Pos()
+		if !pos.IsValid() {
+			// the condition may be a phi/const: use the closest positioned instruction before it
+			b := ins.Block()
+			for i := len(b.Instrs) - 2; i >= 0 && !pos.IsValid(); i-- {
+				pos = b.Instrs[i].Pos()
+			}
+		}
+	}
+	txt, _ := e.srcLine(pos)
+	if txt == "" {
+		return
+	}
+	for ai, sa := range e.fc.Asserts {
+		if sa.When != "at" || !strings.Contains(txt, sa.Pattern) {
+			continue
+		}
+		key := fmt.Sprintf("atdone:%d:%s", ai, txt)
+		if e.counts[key] > 0 {
+			continue
+		}
+		e.counts[key]++
+		e.siteAsserts(ins, txt, nil, st, "at", nil)
 	}
 }
